@@ -14,15 +14,23 @@ the code before the fix from the concrete witness that the harness replays.
 namespace Eru.Props.C35
 open Eru.Rpc.Auth
 
-/-- a call (unary or streaming: both interceptors run `doAuth` first) is served iff the transport
-accepts the headers and the first value presented under the configured username is the configured password -/
+/-- a call is served iff the transport accepts the headers and the first value presented under the
+configured username is the configured password.  (Close to definitional: `presents` is the lookup
+`doAuth` performs; the content is in `served_iff_credential_modulo_case`, `correct_credential_served_with_any_extras`
+and `wrong_password_rejected`.)  The unary/streaming split is not visible in the model — both
+interceptors call the same `doAuth` before the handler; that both really do is checked by the oracle
+only (every case makes one unary and one streaming call and reports whether each handler ran). -/
 theorem served_iff (cfg : Cred) (cred : Option Cred) (extra : List (Str × Str)) :
     call cfg cred extra = .served ↔ wireOk (wire cred extra) = true ∧ presents cfg cred extra = true :=
   call_served_iff cfg cred extra
 
 /-- for a client that presents one credential and nothing else: served iff its header is well formed,
-the username matches (modulo the transport's lower-casing) and the password is equal -/
-theorem served_iff_credential (cfg c : Cred) :
+the username matches MODULO ASCII CASE and the password is EXACTLY equal.  This is weaker than
+"exactly matching credentials" on the username side (client `ADMIN` is served by server `admin`,
+second `example` below) and cannot be otherwise: gRPC lower-cases every metadata key before it is
+sent (HTTP/2 forbids upper-case header names), so the case of the client's username never reaches
+the server.  Passwords travel as values, are preserved byte for byte and are compared with `=`. -/
+theorem served_iff_credential_modulo_case (cfg c : Cred) :
     call cfg (some c) [] = .served ↔
       fieldOk (lower c.user, c.pass) = true ∧ lower c.user = lower cfg.user ∧ c.pass = cfg.pass := by
   rw [call_served_iff]
@@ -32,9 +40,24 @@ theorem served_iff_credential (cfg c : Cred) :
 
 /-- a client configured with the same credentials as the server is always accepted (whenever the
 credential can be carried as gRPC metadata at all) -/
-theorem same_credentials_accepted (cfg : Cred) (h : fieldOk (lower cfg.user, cfg.pass) = true) :
+theorem same_credentials_accepted (cfg : Cred) (h : fieldOk (lower cfg.user, cfg.pass) = true)
+    (_hdom : inDomain (wire (some cfg) []) = true) :   -- not a header name gRPC reserves for itself (outside the model's domain)
     call cfg (some cfg) [] = .served := by
-  rw [served_iff_credential]; exact ⟨h, rfl, rfl⟩
+  rw [served_iff_credential_modulo_case]; exact ⟨h, rfl, rfl⟩
+
+/-- the right credential is served whatever well-formed metadata the call carries besides (the
+credential headers precede the call's own metadata, and the server compares the first value) -/
+theorem correct_credential_served_with_any_extras (cfg c : Cred) (extra : List (Str × Str))
+    (hu : lower c.user = lower cfg.user) (hp : c.pass = cfg.pass)
+    (hw : wireOk (wire (some c) extra) = true) : call cfg (some c) extra = .served := by
+  rw [call_served_iff]
+  refine ⟨hw, ?_⟩
+  simp [presents, wire, values, hu, hp]
+
+/-- passwords are compared exactly: a password differing only in case is rejected -/
+theorem password_case_matters :
+    call { user := "admin".toList, pass := "secret".toList } (some { user := "admin".toList, pass := "Secret".toList }) [] = .badPassword := by
+  decide
 
 /-- a caller without credentials is never served -/
 theorem anonymous_rejected (cfg : Cred) : call cfg none [] ≠ .served := by
